@@ -86,6 +86,9 @@ func (s scen) config(rp **rec) *stack.Config {
 			if s.kind == "slow-response" && k == 3 {
 				rt.Sleep(500 * 1e6) // invocation 2 is in flight for a while
 			}
+			if strings.HasPrefix(s.kind, "case-variant") && k == 3 {
+				rt.Sleep(100 * 1e6) // the variant of the current id is submitted while the runtime is still working
+			}
 			c := rt.Response(n.ReqID, n.Body)
 			r.curDone = true
 			if c.Status != 202 {
@@ -173,6 +176,16 @@ func (s scen) run(c *hx.Ctx) *hx.ScenarioResult {
 				r.rogue = append(r.rogue, rogue.Response(older, []byte(`"ROGUE"`)))
 			case "unknown-response":
 				r.rogue = append(r.rogue, rogue.Response("11111111-2222-3333-4444-555555555555", []byte(`"ROGUE"`)))
+			case "case-variant-response", "case-variant-error":
+				// the id of the invocation in flight, but not byte for byte: upper-cased
+				n := len(r.ids)
+				sched.Block("await-delivery-of-2", nil, func() bool { return len(r.ids) > n || inv2done })
+				id := strings.ToUpper(r.curID) // (placed after invocation 2 is over: a variant of a stale id)
+				if s.kind == "case-variant-response" {
+					r.rogue = append(r.rogue, rogue.Response(id, []byte(`"ROGUE"`)))
+				} else {
+					r.rogue = append(r.rogue, rogue.Error(id, "Function.Rogue", []byte(`{"errorMessage":"ROGUE"}`)))
+				}
 			case "duplicate-response", "duplicate-error":
 				// wait until the runtime of invocation 2 has submitted, then submit again with the same id
 				n := len(r.ids)
@@ -281,7 +294,11 @@ func init() {
 			b = 2
 		}
 		for _, end := range []string{"success", "fnerror", "timeout", "crash", "extexit"} {
-			for _, k := range []string{"stale-response", "stale-error", "older-response", "unknown-response", "duplicate-response", "duplicate-error"} {
+			kinds := []string{"stale-response", "stale-error", "older-response", "unknown-response", "duplicate-response", "duplicate-error"}
+			if end == "success" || end == "timeout" {
+				kinds = append(kinds, "case-variant-response", "case-variant-error")
+			}
+			for _, k := range kinds {
 				ss = append(ss, scen{ending: end, kind: k, bound: b})
 				if tier == "thorough" && end != "extexit" {
 					ss = append(ss, scen{ending: end, kind: k, ext: true, bound: 1})
